@@ -195,6 +195,15 @@ def check(case, ctx):
         else:
             a = gen.build(sp)
         sl = slice(case["start"], case["stop"], case["step"])
+        # a look-up tolerance in force (on the Axis, or handed to take): tolerances are for scalar / list look-ups, a slice still selects
+        # exactly the labels between its bounds
+        import zlib
+        hz = zlib.crc32(repr((lab, case["start"], case["stop"], case["step"])).encode())
+        tolv = [0.3, 0.75, 2.5][hz % 3] if (kind != 's' and n >= 1 and hz % 4 == 0) else None
+        tol_on_axis = tolv is not None and (hz // 4) % 2 == 0
+        if tol_on_axis:
+            a.axes[0].tol = tolv
+            ctx.outcomes['slices-on-axes-carrying-a-tolerance'] += 1
         exp = exp_exc = None
         try:
             pos = model.slice_positions(lab, sl.start, sl.stop, sl.step)
@@ -207,6 +216,9 @@ def check(case, ctx):
         if blk != "mono" or (case["start"] is None or case["stop"] is None):
             jobs.append(("a.loc[%r:%r:%r]" % (sl.start, sl.stop, sl.step), lambda: a.loc[sl]))
             jobs.append(("a.sel(t=slice(%r,%r,%r))" % (sl.start, sl.stop, sl.step), lambda: a.sel(t=sl)))
+        if tolv is not None and not tol_on_axis:
+            jobs.append(("a.take(slice(%r,%r,%r), axis='t', tol=%r)" % (sl.start, sl.stop, sl.step, tolv), lambda: a.take(sl, axis='t', tol=tolv)))
+            ctx.outcomes['slices-with-tol-keyword'] += 1
         if blk == 'strict':
             ctx.outcomes['strict-slices'] += 1     # str or shuffled axis: both bounds must be existing labels
         for label, fn in jobs:
@@ -249,12 +261,19 @@ def check(case, ctx):
     # position slices
     sp = case["a"]
     m = model.from_spec(sp)
-    a = gen.build(sp)
+    import collections
+    cnt_ = collections.Counter()
+    a = common.build_under_option(sp, cnt_)      # one in six built while indexing.by='position' was in force
+    posmode = bool(cnt_)
+    ctx.outcomes.update(cnt_)
     idx = tuple(case["idx"])
     ev = m.values[idx]
     exp = model.MA(ev, m.dims, [list(np.array(l, dtype=object)[ix]) for l, ix in zip(m.labels, idx)])
     single = idx[0] if len(idx) == 1 else idx
-    for label, fn in [("a.ix[p]", lambda: a.ix[single]), ("a.iloc[p]", lambda: a.iloc[single]),
+    # (.ix is documented as a toggle: on an array that remembers position mode it looks labels up, and plain [] is positional)
+    for label, fn in [("a.ix[p]", lambda: a.ix[single]) if not posmode else ("a[p] on an array built under indexing.by='position'", lambda: a[single]),
+                      ("a.iloc[p]", lambda: a.iloc[single]),
+                      ("a.isel(**{dim: p})", lambda: a.isel(**{d: ix for d, ix in zip(m.dims, idx)})),
                       ("a.take(p, indexing='position')", lambda: a.take(idx, indexing='position'))]:
         label = "%s with p=%s shape=%r" % (label, codec.short(idx, 160), m.shape)
         res, exc = ctx.call(label, fn, operands=(a,), meta='carry')
